@@ -44,6 +44,12 @@ var origStdout *os.File
 
 // Quiet silences the repository's loggers and its direct prints to stdout.
 func Quiet() {
+	if os.Getenv("VERIF_REPO_LOGS") != "" {
+		// debugging aid: let error-level repo logs through to stderr
+		log15.Root().SetHandler(log15.LvlFilterHandler(log15.LvlError, log15.StderrHandler))
+		common.Clock = Clock
+		return
+	}
 	log15.Root().SetHandler(log15.DiscardHandler())
 	for _, l := range []log15.Logger{common.ChainLogger, common.ConsensusLogger, common.NodeLogger, common.P2PLogger,
 		common.PillarLogger, common.ProtocolLogger, common.FetcherLogger, common.DownloaderLogger, common.RPCLogger,
